@@ -12,6 +12,8 @@
 #include "oneapi/tbb/task_arena.h"
 #include "oneapi/tbb/concurrent_queue.h"
 #include "oneapi/tbb/global_control.h"
+#include "oneapi/tbb/task_group.h"
+#include "oneapi/tbb/parallel_for.h"
 using namespace vh;
 using namespace tbb::detail::r1;
 
@@ -167,6 +169,38 @@ static int do_enq(int P, int n) {
     return 0;
 }
 
+// enqprio P pc leftover: an enqueued task runs although nobody waits in its arena, also when ANOTHER arena (priority pc: 0 high / 1 normal / 2 low) has ordinary worker
+// demand and the worker budget is P - 1 (P = 1: only the mandatory worker exists).   output: NOTRUN n
+static int do_enqprio(int P, int pc, int leftover) {
+    Watchdog wd(60.0); Out o; wd.arm(&o);
+    tbb::global_control gc(tbb::global_control::max_allowed_parallelism, P);
+    long notrun = 0;
+    tbb::task_arena::priority prios[3] = { tbb::task_arena::priority::high, tbb::task_arena::priority::normal, tbb::task_arena::priority::low };
+    for (int r = 0; r < 3; ++r) {
+        tbb::task_arena C(4, 1, prios[pc]); tbb::task_arena T(2 + r % 2, r % 2, tbb::task_arena::priority::normal);
+        std::atomic<int> stop{0}, inside{0}, ran{0};
+        std::thread X;
+        if (leftover || P > 1) {       // with a regular worker available it would get stuck in the competitor's never-ending tasks: that is the user's doing, not the library's
+            C.execute([&] { tbb::parallel_for(0, 2000, [](int) { for (volatile int k = 0; k < 2000; ++k) {} }); });
+        } else {
+            X = std::thread([&] { C.execute([&] {
+                tbb::task_group tg; for (int i = 0; i < 6; ++i) tg.run([&] { while (!stop.load()) std::this_thread::yield(); });
+                inside = 1; while (!stop.load()) std::this_thread::yield(); tg.wait(); }); });
+            while (!inside.load()) std::this_thread::yield();
+            std::this_thread::sleep_for(std::chrono::milliseconds(20));
+        }
+        T.enqueue([&] { ran = 1; });
+        for (int k = 0; k < 40000 && !ran.load(); ++k) std::this_thread::sleep_for(std::chrono::microseconds(100));      // 4 s, nobody waits in T
+        if (!ran.load()) notrun++;
+        stop = 1; if (X.joinable()) X.join();
+        for (int k = 0; k < 100000 && !ran.load(); ++k) std::this_thread::sleep_for(std::chrono::microseconds(100));
+        if (!ran.load()) { T.execute([] {}); }
+    }
+    wd.disarm();
+    std::printf("NOTRUN %ld\n", notrun);
+    return 0;
+}
+
 // blocked producers of a full concurrent_bounded_queue, some of them aborted (their tickets become holes), later producers waiting
 // behind the holes: every pop that frees a slot must wake the producer waiting for it
 static int do_bq(int cap, int nA, int nB, unsigned seed) {
@@ -196,6 +230,7 @@ int main(int argc, char** argv) {
     if (mode == "seq1") return do_seq1();
     if (mode == "mt") return do_mt(atoi(argv[2]), (unsigned)atoi(argv[3]), atoi(argv[4]));
     if (mode == "enq") return do_enq(atoi(argv[2]), atoi(argv[3]));
+    if (mode == "enqprio") return do_enqprio(atoi(argv[2]), atoi(argv[3]), atoi(argv[4]));
     if (mode == "bq") return do_bq(atoi(argv[2]), atoi(argv[3]), atoi(argv[4]), (unsigned)atoi(argv[5]));
     return 2;
 }
